@@ -192,6 +192,43 @@ def r2_probability(ctx, rule):
         ctx.bad(rule, 'lib_trainer/run_trainer.py::run_trainer', 'save_omen_rules_to_disk arguments', 'keyspace, level counts and N', None, rt)
 
 
+def r17_keyspace_recursion_counts(ctx, rule):
+    """_rec_calc_keyspace counts strings: a cell starts at 0, gains exactly 1 per last letter whose level is the remaining level, and
+    the recursive count per continuation otherwise.  (Mutation sweep: `+= 2` / a start value of 1 - every keyspace, and with it every
+    level probability, was off with no error.)"""
+    q = 'lib_trainer/omen/evaluate_password.py::_rec_calc_keyspace'
+    fn = ctx.fn(q)
+    ctx.stats['functions'].add(q)
+    cells = [st for st in walk_local(fn) if isinstance(st, ast.AugAssign) and isinstance(st.op, ast.Add) and isinstance(st.target, ast.Subscript)]
+    inits = [st for st in walk_local(fn) if isinstance(st, ast.Assign) and len(st.targets) == 1 and isinstance(st.targets[0], ast.Subscript)
+             and isinstance(const(st.value), int) and not isinstance(const(st.value), bool)]
+    if not ctx.floor(rule, q, len(cells), 2, 'accumulations in the keyspace recursion'):
+        return
+    ok = True
+    tgt = {U(c.target) for c in cells}
+    ones = recs = 0
+    for c in cells:
+        v = c.value
+        if isinstance(const(v), int) and not isinstance(const(v), bool):
+            ones += 1
+            if const(v) != 1:
+                ok = False
+                ctx.bad(rule, q, '%s += %s' % (U(c.target)[-40:], U(v)), 'one string per matching last letter', None, c, firm=True)
+        elif isinstance(v, ast.Call) and call_name(v) == '_rec_calc_keyspace':
+            recs += 1
+        else:
+            ok = False
+            ctx.unk(rule, q, 'the keyspace cell gains %s - not a form this rule knows' % U(v)[:50])
+    for st in inits:
+        if U(st.targets[0]) in tgt and const(st.value) != 0:
+            ok = False
+            ctx.bad(rule, q, 'the keyspace cell starts at %s' % U(st.value), 'a count starts at 0', None, st, firm=True)
+    if ok and ones >= 1 and recs >= 1:
+        ctx.ok(rule, q, 'cells start at 0, gain 1 per complete string and the recursive count per continuation')
+    elif ok:
+        ctx.unk(rule, q, 'base case / recursive case of the keyspace count not both found (%d / %d)' % (ones, recs))
+
+
 def r3_writers_complete(ctx, rule):
     """IP/CP/EP/LN writers emit every entry of the in-memory model the keyspace was computed on."""
     fn = ctx.fn(OFO)
@@ -271,7 +308,9 @@ def rules(tier):
             # C18-da: pcfg_omen_prob.txt written with format(p, '.12f')
             ('C18.R15', _shared_rule('plumbing', 'float_text_exact')),
             # mutation sweep: entries before the start index are never generated - fewer strings than the keyspace says
-            ('C18.R16', _shared_rule('c10', 'r23_cursor_starts'))]
+            ('C18.R16', _shared_rule('c10', 'r23_cursor_starts')),
+            # mutation sweep: keyspace cells counted by 2 / started at 1
+            ('C18.R17', _shared_rule('c18', 'r17_keyspace_recursion_counts'))]
 
 
 META = {
